@@ -456,6 +456,49 @@ def accept : P String := do
       (fun _ => s!"{comp} accepted_invalid_model (stored rows beyond the tolerance once sub-threshold entries are dropped)")
   return v.render
 
+/-- `traj rep S A O | T | Ob | b0 | s0 n (a s1 o)* | bel_t*` : a trajectory the model simulated itself (`sampleSOR`) while the belief was
+    maintained by `updateBelief`.  Clauses (theorem `filter_tracks_truth`): every sampled step is possible under the stored tables,
+    every observation then has positive probability under the filtered belief, the library's belief is finite, is the Bayes posterior, and
+    never gives the true state probability zero. -/
+def traj : P String := do
+  let rep ← P.tok; let S ← P.nat; let A ← P.nat; let O ← P.nat; P.bar
+  let T ← qsN (A * S * S); P.bar
+  let Ob ← qsN (A * S * O); P.bar
+  let b0 ← qsN S; P.bar
+  let s0 ← P.nat; let n ← P.nat
+  let steps ← P.rep (do let a ← P.nat; let s1 ← P.nat; let o ← P.nat; pure (a, s1, o)) n
+  P.bar
+  let bels ← P.rep (xsN S) n
+  P.eof
+  let m := mk3 S A O T Ob
+  let mm := storedModel rep m
+  let repc := if rep == "sparseraw" then "sparse" else rep
+  let v : Verdict := { tag := (if S ≤ 1 || n == 0 then "trivial " else "") ++ s!"traj" }
+  let v := fIf v (!(consistentB mm s0 steps)) (fun _ => s!"sampleSOR/{repc} sampled_impossible_step s0={s0} steps={steps}")
+  let rec go (k : Nat) (s : Nat) (bel : Array Rat) : List ((Nat × Nat × Nat) × Array XRat) → Verdict → Verdict
+    | [], v => v
+    | ((a, s1, o), implX) :: rest, v =>
+      let b := arrVec bel
+      let w := unnormG mm b a o
+      let po := sumTo S w
+      let possible := decide (0 < mm.T s a s1) && decide (0 < mm.Ob s1 a o)
+      if po ≤ 0 then
+        -- cannot happen for a possible step (unnorm_pos_of_step); if the simulator left the tables, it was reported above
+        fIf v possible (fun _ => s!"updateBelief/{repc} observation_of_zero_probability_on_trajectory step={k}")
+      else
+        match xsFin implX with
+        | none => fIf v true (fun _ => s!"updateBelief/{repc} not_finite step={k} P(o|b,a)={ratStr po} impl={implX.toList}")
+        | some impl =>
+          let post : Array Rat := ((List.range S).map (fun i => w i / po)).toArray
+          let v := fIf v (!(allLt S fun i => relClose (post.getD i 0) (impl.getD i 0)))
+            (fun _ => s!"updateBelief/{repc} filter_not_posterior step={k} impl={impl} spec={post}")
+          let v := fIf v (possible && !(decide (0 < impl.getD s1 0)))
+            (fun _ => s!"updateBelief/{repc} true_state_excluded step={k} true_state={s1} impl={impl}")
+          -- continue from the exact posterior (the library's own belief is within 1e-9 of it)
+          go (k + 1) s1 post rest v
+  let v := go 1 s0 b0 (steps.zip bels) v
+  return v.render
+
 /-- `overload <component> <what>` : two overloads of one helper returned different bits -/
 def overload : P String := do
   let comp ← P.tok; let what ← P.tok; P.eof
@@ -466,6 +509,7 @@ def handle (toks : List String) : String :=
     | "upd" :: rest => P.run upd rest
     | "tab" :: rest => P.run tab rest
     | "accept" :: rest => P.run accept rest
+    | "traj" :: rest => P.run traj rest
     | "hist" :: rest => P.run hist rest
     | "inplace" :: rest => P.run inplace rest
     | "overload" :: rest => P.run overload rest
